@@ -568,6 +568,11 @@ impl Ctx<'_> {
     let base = self.name_of((tf, td), true, imports);
     match d.kind {
       DK::Class | DK::AbstractClass | DK::Interface | DK::TypeAlias | DK::Enum | DK::ConstEnum => base,
+      // half of the same-file namespaces are named through an import-equals alias
+      DK::Namespace if tf == self.f && d.variant % 2 == 0 => {
+        imports.insert(format!("import Al_{} = {}.Inner;", d.name, base));
+        format!("Al_{}", d.name)
+      }
       DK::Namespace => format!("{}.Inner", base),
       _ => format!("typeof {}", base),
     }
@@ -1137,10 +1142,13 @@ pub fn feature_counts(p: &Pkg) -> BTreeMap<&'static str, u64> {
   for ((f, _), refs) in &used {
     let cx = Ctx { p, f: *f };
     for (tf, td) in refs {
+      let d = &p.files[*tf].decls[*td];
+      if tf == f && d.kind == DK::Namespace && d.variant % 2 == 0 {
+        *out.entry("feature:import-equals-alias-of-namespace-member").or_default() += 1;
+      }
       if tf == f {
         continue;
       }
-      let d = &p.files[*tf].decls[*td];
       if d.default_export && !d.exported {
         *out.entry("feature:default-import").or_default() += 1;
       } else if p.files[*f].import_style.get(tf).copied().unwrap_or(0) != 1 && cx.import_source(*tf) != *tf {
